@@ -5,7 +5,7 @@ import sqlite3
 from . import tlc
 from .tlc import MachineryError
 from pony.orm import core
-from pony.orm.core import Database, PrimaryKey, Required, Set, db_session
+from pony.orm.core import Database, PrimaryKey, Required, Optional, Set, db_session
 
 
 class Boom(Exception):
@@ -32,6 +32,7 @@ class World:
             _table_ = 'tk'
             id = PrimaryKey(int)
             p = Required(P, column='p_id')
+            w = Optional(int)
 
         class R(db.Entity):
             _table_ = 'tr'
@@ -51,7 +52,7 @@ class World:
         if state['p']:
             con.execute('INSERT INTO tp (id) VALUES (1)')
         for k in state['K']:
-            con.execute('INSERT INTO tk (id, p_id) VALUES (?, 1)', (k,))
+            con.execute('INSERT INTO tk (id, p_id, w) VALUES (?, 1, ?)', (k, 1 if k in state.get('W', ()) else None))
         for k in state['R']:
             con.execute('INSERT INTO tr (id, p_id) VALUES (?, 1)', (k,))
         con.close()
@@ -60,14 +61,15 @@ class World:
         con = sqlite3.connect(self.path)
         p = con.execute('SELECT COUNT(*) FROM tp').fetchone()[0] == 1
         K = set(k for k, in con.execute('SELECT id FROM tk'))
+        W = set(k for k, in con.execute('SELECT id FROM tk WHERE w IS NOT NULL'))
         R = set(k for k, in con.execute('SELECT id FROM tr'))
         fk = con.execute('PRAGMA foreign_key_check').fetchall()
         con.close()
-        return {'p': p, 'K': K, 'R': R}, fk
+        return {'p': p, 'K': K, 'R': R, 'W': W}, fk
 
 
 def norm(s):
-    return {'p': s['p'], 'K': set(s['K']), 'R': set(s['R'])}
+    return {'p': s['p'], 'K': set(s['K']), 'R': set(s['R']), 'W': set(s.get('W', ()))}
 
 
 def look(w, st, rng):
@@ -91,6 +93,8 @@ def look(w, st, rng):
     for o in ks:
         same('K', o.id, o)
         out.add(('K', o.id))
+        if o.w is not None:
+            out.add(('W', o.id))
     for o in rs:
         same('R', o.id, o)
         out.add(('R', o.id))
@@ -131,6 +135,11 @@ def execute(w, st, ev, rng):
             p = st['objs'].get(('P', 1)) or w.E['P'][1]
             st['objs'][('P', 1)] = p
             st['objs'][(e, k)] = w.E[e](id=k, p=p)
+            return 'ok', set()
+        if op == 'SetW':
+            o = st['objs'].get((e, k)) or w.E[e][k]
+            st['objs'][(e, k)] = o
+            o.w = None if o.w is not None else 1
             return 'ok', set()
         if op == 'Delete':
             o = st['objs'].get((e, k)) or w.E[e][k]
